@@ -40,6 +40,9 @@ type inlineOpts struct {
 	pkg   *types.Package // helpers of this package are opened
 	depth int
 	stop  func(f *ssa.Function) bool // never open these (their call stays an event)
+	maxDepth int // helpers are opened down to this nesting depth (default 3)
+	// opaque: after looking at the helper's own inlined paths, keep its call opaque all the same
+	opaque func(h *ssa.Function, inner []IPath) bool
 }
 
 func destKind(addr ssa.Value) string {
@@ -82,6 +85,10 @@ func InlinedPaths(p *core.Prog, f *ssa.Function, o inlineOpts) []IPath {
 	if o.pkg == nil {
 		o.pkg = core.FuncPkg(f)
 	}
+	if o.maxDepth == 0 {
+		o.maxDepth = 3
+	}
+	initNonNilGlobals(p)
 	rps, _ := core.ReturnPaths(p, f, 5000)
 	var out []IPath
 	for _, rp := range rps {
@@ -177,7 +184,7 @@ func InlinedPaths(p *core.Prog, f *ssa.Function, o inlineOpts) []IPath {
 						continue
 					}
 					h := cc.StaticCallee()
-					open := h != nil && len(h.Blocks) > 0 && core.FuncPkg(h) == o.pkg && (h.Synthetic == "" || strings.HasPrefix(h.Synthetic, "instance of")) && o.depth < 3 && h != f && (o.stop == nil || !o.stop(h))
+					open := h != nil && len(h.Blocks) > 0 && core.FuncPkg(h) == o.pkg && (h.Synthetic == "" || strings.HasPrefix(h.Synthetic, "instance of")) && o.depth < o.maxDepth && h != f && (o.stop == nil || !o.stop(h))
 					if !open {
 						ev := Event{Kind: "call", Callee: core.CalleeName(cc), Instr: in, Locked: locked > 0}
 						if cc.IsInvoke() || ev.Callee == "dyn" {
@@ -193,7 +200,19 @@ func InlinedPaths(p *core.Prog, f *ssa.Function, o inlineOpts) []IPath {
 						}
 						continue
 					}
-					inner := InlinedPaths(p, h, inlineOpts{pkg: o.pkg, depth: o.depth + 1, stop: o.stop})
+					inner := InlinedPaths(p, h, inlineOpts{pkg: o.pkg, depth: o.depth + 1, stop: o.stop, maxDepth: o.maxDepth, opaque: o.opaque})
+					if o.opaque != nil && o.opaque(h, inner) {
+						ev := Event{Kind: "call", Callee: core.CalleeName(cc), Instr: in, Locked: locked > 0}
+						for _, a := range cc.Args {
+							ev.Args = append(ev.Args, rp.Env.Term(a))
+						}
+						for i := range cur {
+							e2 := ev
+							e2.Args = applySubsAll(ev.Args, subs[i])
+							cur[i].Events = append(cur[i].Events, e2)
+						}
+						continue
+					}
 					var next []IPath
 					var nextSubs [][]valueSub
 					for i, cp := range cur {
@@ -329,7 +348,73 @@ func feasibleX(atoms []core.Atom) bool {
 			if n.Sign {
 				return false
 			}
+		case x.Op == "global" && nonNilGlobalNames[x.Name]:
+			// a sentinel (`var ErrX = errors.New(..)`, never reassigned) is not nil
+			if n.Sign {
+				return false
+			}
 		}
 	}
 	return true
+}
+
+// nonNilGlobalNames: package-level variables of the module that are given a freshly made value (errors.New, fmt.Errorf, &T{})
+// in their package initialiser and are stored nowhere else. Keyed as the term prints them ("pkg.Name").
+var nonNilGlobalNames map[string]bool
+
+func initNonNilGlobals(p *core.Prog) {
+	if nonNilGlobalNames != nil {
+		return
+	}
+	nonNilGlobalNames = map[string]bool{}
+	stores := map[*ssa.Global]int{}
+	fresh := map[*ssa.Global]bool{}
+	scan := func(f *ssa.Function, isInit bool) {
+		for _, b := range f.Blocks {
+			for _, in := range b.Instrs {
+				st, ok := in.(*ssa.Store)
+				if !ok {
+					continue
+				}
+				g, ok := st.Addr.(*ssa.Global)
+				if !ok {
+					continue
+				}
+				stores[g]++
+				if !isInit {
+					continue
+				}
+				v := st.Val
+				if mi, ok := v.(*ssa.MakeInterface); ok {
+					v = mi.X
+				}
+				switch x := v.(type) {
+				case *ssa.Alloc:
+					fresh[g] = true
+				case *ssa.Call:
+					if cal := x.Common().StaticCallee(); cal != nil && cal.Pkg != nil {
+						n := cal.Pkg.Pkg.Path() + "." + cal.Name()
+						if n == "errors.New" || n == "fmt.Errorf" {
+							fresh[g] = true
+						}
+					}
+				}
+			}
+		}
+	}
+	for _, sp := range p.SSAPkgs {
+		if f := sp.Func("init"); f != nil {
+			scan(f, true)
+		}
+	}
+	for _, f := range p.ModFuncs {
+		if f.Name() != "init" {
+			scan(f, false)
+		}
+	}
+	for g, ok := range fresh {
+		if ok && stores[g] == 1 && g.Pkg != nil {
+			nonNilGlobalNames[g.Pkg.Pkg.Name()+"."+g.Name()] = true
+		}
+	}
 }
